@@ -9,7 +9,7 @@ From Coq Require Import List Arith ZArith Permutation.
 From GV.lib Require Import Semiring BigSum.
 From GV.model Require Import Cfg Transform.
 From GV.gen Require Import Gen_Cfg.
-From GV.proofs Require Import CkyProofs TrimProofs GenCfgBridge.
+From GV.proofs Require Import CkyProofs TrimProofs GenCfgBridge UnfoldProofs.
 Import ListNotations.
 
 (* cotrim = trim(bottomup_only): dropping every rule that mentions a non-generating symbol
@@ -54,3 +54,215 @@ Proof.
   exact (conj (gen_rename_model S f G) (conj (gen_cotrim_model S G) (gen_separate_start_model S s' s G))).
 Qed.
 Print Assumptions C06_code_is_model.
+
+(* ---------------------------------------------------------------------------------------------
+   Tree-level and equation-level preservation theorems for the remaining transformations.
+   "Solutions": f solves G when f X xs = sum over the rules X -> body of w * Wb f body xs for all X, xs
+   (the grammar's equation system; the string-weight function is its least solution when it exists).
+   "Trees": derivation trees carry the index of their rule, so duplicate rules give distinct trees.
+   --------------------------------------------------------------------------------------------- *)
+From GV.model Require Import Transform2.
+From GV.proofs Require UnfoldTreeProofs SepTermProofs BinTreeProofs FoldProofs NullUnaryProofs.
+
+(* CFG.unfold (regenerated): one step of the unfolded grammar's equations is one step of the original
+   equations with the k-th body symbol of rule i expanded once more. *)
+Theorem C06_unfold_one_step : forall (S : SR) (G : grammar S) (i k : nat) (s : rule S) (Y : nat)
+    (f : nat -> list nat -> S) (X : nat) (xs : list nat),
+  nth_error G i = Some s -> nth_error (rbody s) k = Some (N Y) ->
+  gstep S (gen_unfold S i k G) f X xs
+  = sadd (bsum (kept S i G) (term S f X xs))
+         (if Nat.eqb (rhead s) X then smul (rw s) (Wb_at S f (gstep S G f) k (rbody s) xs) else s0).
+Proof. intros S G i k s Y f X xs Hs Hk. exact (unfold_one_step S G i k s Y f X xs Hs Hk). Qed.
+Print Assumptions C06_unfold_one_step.
+
+Theorem C06_unfold_preserves_solutions : forall (S : SR) (G : grammar S) (i k : nat) (f : nat -> list nat -> S),
+  (forall X xs, f X xs = gstep S G f X xs) ->
+  forall X xs, gstep S (gen_unfold S i k G) f X xs = f X xs.
+Proof. intros; apply unfold_preserves_solutions; assumption. Qed.
+Print Assumptions C06_unfold_preserves_solutions.
+
+(* CFG.unfold: the derivation trees of G and of unfold(i, k) are in one-to-one correspondence (phi, psi
+   mutually inverse) preserving root, yield and weight; heights change by at most a factor two.  Hence
+   every (finite or infinite) derivation sum is preserved term by term, over every commutative semiring,
+   duplicate rules included. *)
+Theorem C06_unfold_trees : forall (S : SR) (G : grammar S) (i k : nat) (s : rule S) (Y : nat),
+  nth_error G i = Some s -> nth_error (rbody s) k = Some (N Y) ->
+  let G' := gen_unfold S i k G in
+  let phi := UnfoldTreeProofs.phi S G i k s Y in
+  let psi := UnfoldTreeProofs.psi S G i k s Y in
+  (forall X t, twf S G (N X) t ->
+     twf S G' (N X) (phi t) /\ tyield (phi t) = tyield t /\ tweight (phi t) = tweight t /\
+     theight (phi t) <= theight t /\ psi (phi t) = t) /\
+  (forall X t', twf S G' (N X) t' ->
+     twf S G (N X) (psi t') /\ tyield (psi t') = tyield t' /\ tweight (psi t') = tweight t' /\
+     theight (psi t') <= 2 * theight t' /\ phi (psi t') = t').
+Proof.
+  intros S G i k s Y Hs Hk G' phi psi. split.
+  - intros X t Ht. repeat split.
+    + exact (UnfoldTreeProofs.phi_wf S G i k s Y Hs Hk X t Ht).
+    + exact (UnfoldTreeProofs.phi_yield S G i k s Y Hs Hk X t Ht).
+    + exact (UnfoldTreeProofs.phi_weight S G i k s Y Hs Hk X t Ht).
+    + exact (proj1 (UnfoldTreeProofs.phi_height S G i k s Y Hs Hk X t Ht)).
+    + exact (UnfoldTreeProofs.psi_phi S G i k s Y Hs Hk X t Ht).
+  - intros X t' Ht. repeat split.
+    + exact (UnfoldTreeProofs.psi_wf S G i k s Y Hs Hk X t' Ht).
+    + exact (UnfoldTreeProofs.psi_yield S G i k s Y Hs Hk X t' Ht).
+    + exact (UnfoldTreeProofs.psi_weight S G i k s Y Hs Hk X t' Ht).
+    + exact (proj2 (UnfoldTreeProofs.psi_height S G i k s Y Hs Hk X t' Ht)).
+    + exact (UnfoldTreeProofs.phi_psi S G i k s Y Hs Hk X t' Ht).
+Qed.
+Print Assumptions C06_unfold_trees.
+
+(* ... and in terms of the reference semantics W: every height-bounded derivation sum of one grammar is
+   the sum over a duplicate-free sub-list of the trees enumerated for the other grammar (at height h,
+   resp. 2h) with the same yields and weights. *)
+Theorem C06_unfold_sums : forall (S : SR) (G : grammar S) (i k : nat) (s : rule S) (Y : nat),
+  nth_error G i = Some s -> nth_error (rbody s) k = Some (N Y) ->
+  forall h X xs,
+  (NoDup (map (UnfoldTreeProofs.phi S G i k s Y) (trees G h X)) /\
+   incl (map (UnfoldTreeProofs.phi S G i k s Y) (trees G h X)) (trees (gen_unfold S i k G) h X) /\
+   W G h X xs = bsum (filter (yields xs) (map (UnfoldTreeProofs.phi S G i k s Y) (trees G h X))) tweight) /\
+  (NoDup (map (UnfoldTreeProofs.psi S G i k s Y) (trees (gen_unfold S i k G) h X)) /\
+   incl (map (UnfoldTreeProofs.psi S G i k s Y) (trees (gen_unfold S i k G) h X)) (trees G (2 * h) X) /\
+   W (gen_unfold S i k G) h X xs = bsum (filter (yields xs) (map (UnfoldTreeProofs.psi S G i k s Y) (trees (gen_unfold S i k G) h X))) tweight).
+Proof.
+  intros S G i k s Y Hs Hk h X xs. split.
+  - exact (UnfoldTreeProofs.W_sub_sum S G i k s Y Hs Hk h X xs).
+  - exact (UnfoldTreeProofs.W'_sub_sum S G i k s Y Hs Hk h X xs).
+Qed.
+Print Assumptions C06_unfold_sums.
+
+(* CFG.separate_terminals (model with preterminal naming pt, injective and new to G): one-to-one
+   correspondence of derivation trees preserving root, yield and weight; heights grow by at most one. *)
+Theorem C06_separate_terminals_trees : forall (S : SR) (pt : nat -> nat) (G : grammar S),
+  (forall a b, pt a = pt b -> a = b) ->
+  (forall a r, In r G -> rhead r <> pt a /\ ~ In (N (pt a)) (rbody r)) ->
+  let G' := separate_terminals pt G in
+  let phi := SepTermProofs.phi S pt G in
+  let psi := SepTermProofs.psi S G in
+  (forall X t, twf S G (N X) t ->
+     twf S G' (N X) (phi t) /\ tyield (phi t) = tyield t /\ tweight (phi t) = tweight t /\
+     theight (phi t) <= Datatypes.S (theight t) /\ psi (phi t) = t) /\
+  (forall X t', (forall a, X <> pt a) -> twf S G' (N X) t' ->
+     twf S G (N X) (psi t') /\ tyield (psi t') = tyield t' /\ tweight (psi t') = tweight t' /\
+     theight (psi t') <= theight t' /\ phi (psi t') = t').
+Proof.
+  intros S pt G Hinj Hfresh G' phi psi. split.
+  - intros X t Ht. repeat split.
+    + exact (SepTermProofs.phi_wf S pt G X t Ht).
+    + exact (SepTermProofs.phi_yield S pt G X t Ht).
+    + exact (SepTermProofs.phi_weight S pt G X t Ht).
+    + exact (proj2 (SepTermProofs.phi_height S pt G X t Ht)).
+    + exact (SepTermProofs.psi_phi S pt G X t Ht).
+  - intros X t' HX Ht. repeat split.
+    + exact (SepTermProofs.psi_wf S pt G Hinj Hfresh X t' HX Ht).
+    + exact (SepTermProofs.psi_yield S pt G Hinj Hfresh X t' HX Ht).
+    + exact (SepTermProofs.psi_weight S pt G Hinj Hfresh X t' HX Ht).
+    + exact (SepTermProofs.psi_height S pt G Hinj Hfresh X t' HX Ht).
+    + exact (SepTermProofs.phi_psi S pt G Hinj Hfresh X t' HX Ht).
+Qed.
+Print Assumptions C06_separate_terminals_trees.
+
+(* CFG.binarize (model with a counter of fresh names, all names of G below it): one-to-one correspondence
+   of derivation trees preserving root, yield and weight (the invented rules have weight one); heights
+   grow by at most the factor 1 + (longest body - 2). *)
+Theorem C06_binarize_trees : forall (S : SR) (fresh : nat) (G : grammar S),
+  (forall r, In r G -> rhead r < fresh) ->
+  (forall r Y, In r G -> In (N Y) (rbody r) -> Y < fresh) ->
+  let G' := binarize fresh G in
+  let phi := BinTreeProofs.phi S fresh G in
+  let psi := BinTreeProofs.psi S fresh G in
+  (forall X t, twf S G (N X) t ->
+     twf S G' (N X) (phi t) /\ tyield (phi t) = tyield t /\ tweight (phi t) = tweight t /\
+     theight (phi t) <= BinTreeProofs.hb S G (theight t) /\ psi (phi t) = t) /\
+  (forall X t', X < fresh -> twf S G' (N X) t' ->
+     twf S G (N X) (psi t') /\ tyield (psi t') = tyield t' /\ tweight (psi t') = tweight t' /\
+     theight (psi t') <= theight t' /\ phi (psi t') = t').
+Proof.
+  intros S fresh G Hh Hb G' phi psi. split.
+  - intros X t Ht. repeat split.
+    + exact (BinTreeProofs.phi_wf S fresh G Hh X t Ht).
+    + exact (BinTreeProofs.phi_yield S fresh G Hh X t Ht).
+    + exact (BinTreeProofs.phi_weight S fresh G Hh X t Ht).
+    + exact (proj2 (BinTreeProofs.phi_height S fresh G Hh X t Ht)).
+    + exact (BinTreeProofs.psi_phi S fresh G Hh X t Ht).
+  - intros X t' HX Ht. repeat split.
+    + exact (BinTreeProofs.psi_wf S fresh G Hh Hb X t' HX Ht).
+    + exact (BinTreeProofs.psi_yield S fresh G Hh Hb X t' HX Ht).
+    + exact (BinTreeProofs.psi_weight S fresh G Hh Hb X t' HX Ht).
+    + exact (BinTreeProofs.psi_height S fresh G Hh Hb X t' HX Ht).
+    + exact (BinTreeProofs.phi_psi S fresh G Hh Hb X t' HX Ht).
+Qed.
+Print Assumptions C06_binarize_trees.
+
+(* Equation level: solutions of G extend to solutions of the transformed grammar (agreeing on the old
+   nonterminals), and solutions of the transformed grammar restrict to solutions of G. *)
+Theorem C06_binarize_solutions : forall (S : SR) (fresh : nat) (G : grammar S),
+  (forall r, In r G -> rhead r < fresh) ->
+  (forall r Y, In r G -> In (N Y) (rbody r) -> Y < fresh) ->
+  (forall f, FoldProofs.solves S G f ->
+     FoldProofs.solves S (binarize fresh G) (FoldProofs.binarize_ext S fresh G f) /\
+     (forall Z xs, Z < fresh -> FoldProofs.binarize_ext S fresh G f Z xs = f Z xs)) /\
+  (forall f', FoldProofs.solves S (binarize fresh G) f' ->
+     forall Z xs, Z < fresh -> f' Z xs = gstep S G f' Z xs).
+Proof.
+  intros S fresh G Hh Hb. split.
+  - intros f Hf. exact (FoldProofs.binarize_extend S fresh G f Hh Hb Hf).
+  - intros f' Hf'. exact (FoldProofs.binarize_restrict S fresh G f' Hh Hf').
+Qed.
+Print Assumptions C06_binarize_solutions.
+
+Theorem C06_separate_terminals_solutions : forall (S : SR) (pt : nat -> nat) (G : grammar S),
+  (forall p q, pt p = pt q -> p = q) ->
+  (forall r a, In r G -> In a (terminals_of G) -> rhead r <> pt a) ->
+  (forall r a, In r G -> In a (terminals_of G) -> ~ In (N (pt a)) (rbody r)) ->
+  (forall f, FoldProofs.solves S G f ->
+     FoldProofs.solves S (separate_terminals pt G) (FoldProofs.sep_ext S pt G f) /\
+     (forall Z ys, (forall a, In a (terminals_of G) -> Z <> pt a) -> FoldProofs.sep_ext S pt G f Z ys = f Z ys)) /\
+  (forall f', FoldProofs.solves S (separate_terminals pt G) f' ->
+     forall Z xs, (forall a, In a (terminals_of G) -> Z <> pt a) -> f' Z xs = gstep S G f' Z xs).
+Proof.
+  intros S pt G Hinj Hh Hb. split.
+  - intros f Hf. destruct (FoldProofs.separate_terminals_extend S pt G f Hinj Hh Hb Hf) as (H1 & _ & H3).
+    split; assumption.
+  - intros f' Hf'. exact (proj2 (FoldProofs.separate_terminals_restrict S pt G f' Hinj Hh Hf')).
+Qed.
+Print Assumptions C06_separate_terminals_solutions.
+
+(* CFG._push_null_weights (removal of empty rules; nullw = weights of the empty string, nn = the NotNull
+   naming, s = the start symbol, which occurs in no body): from a solution f of G with f X [] = nullw X
+   one obtains a solution of the null-free grammar which gives the start symbol its old weights and
+   gives NotNull(X) the weight of X on every non-empty string (and zero on the empty string). *)
+Theorem C06_nullaryremove_solutions : forall (S : SR) (nullw : nat -> S) (nn : nat -> nat) (s : nat) (G : grammar S)
+    (f : nat -> list nat -> S),
+  (forall p q, nn p = nn q -> p = q) -> (forall X, s <> nn X) ->
+  (forall r X, In r G -> rhead r <> nn X) -> (forall r X, In r G -> ~ In (N (nn X)) (rbody r)) ->
+  (forall r, In r G -> ~ In (N s) (rbody r)) ->
+  FoldProofs.solves S G f -> (forall X, f X [] = nullw X) ->
+  FoldProofs.solves S (push_null_weights nullw nn s G) (NullUnaryProofs.pn_ext S nullw nn s G f) /\
+  (forall xs, NullUnaryProofs.pn_ext S nullw nn s G f s xs = f s xs) /\
+  (forall X xs, nullw X <> s0 -> X <> s ->
+     NullUnaryProofs.pn_ext S nullw nn s G f (nn X) xs = match xs with [] => s0 | _ => f X xs end) /\
+  (forall Z xs, Z <> s -> (forall X, Z <> nn X) -> nullw Z = s0 -> NullUnaryProofs.pn_ext S nullw nn s G f Z xs = f Z xs).
+Proof. intros; apply NullUnaryProofs.push_null_extend; assumption. Qed.
+Print Assumptions C06_nullaryremove_solutions.
+
+(* CFG.unaryremove with a closure table K = I + U K of the unary-rule graph U (what Lehmann's elimination
+   is proved to return, C15): every solution of the unary-free grammar solves G, and one step of the
+   unary-free grammar satisfies the unary-expanded equation. *)
+Theorem C06_unaryremove_solutions : forall (S : SR) (G : grammar S) (nts : list nat) (K : nat -> nat -> S),
+  NoDup nts -> (forall r, In r G -> In (rhead r) nts) ->
+  (forall r Z, In r G -> rbody r = [N Z] -> In Z nts) ->
+  (forall Y X, In Y nts -> In X nts ->
+     K Y X = sadd (if Nat.eqb Y X then s1 else s0) (bsum nts (fun Z => smul (NullUnaryProofs.Umat S G Y Z) (K Z X)))) ->
+  (forall f', FoldProofs.solves S (unaryremove K nts G) f' -> FoldProofs.solves S G f') /\
+  (forall f Y xs, In Y nts ->
+     gstep S (unaryremove K nts G) f Y xs =
+     sadd (NullUnaryProofs.NUpart S G f Y xs) (bsum nts (fun Z => smul (NullUnaryProofs.Umat S G Y Z) (gstep S (unaryremove K nts G) f Z xs)))).
+Proof.
+  intros S G nts K Hnd Hh Hu HK. split.
+  - intros f' Hf'. exact (NullUnaryProofs.unaryremove_restrict S G nts K f' Hnd Hh Hu HK Hf').
+  - intros f Y xs HY. apply NullUnaryProofs.unaryremove_expanded; try assumption.
+    intros r Hr _. apply Hh; exact Hr.
+Qed.
+Print Assumptions C06_unaryremove_solutions.
